@@ -128,6 +128,22 @@ def apply(ex, f: V, args, kw, p, node):
         if name in ex.handlers:
             ex.trace["handlers"].add(name)
             return ex.handlers[name](ex, p, args, kw, node)
+        if path == ("model_validate",):
+            # pydantic contract: model_validate(mapping) and model_validate(obj, from_attributes=True) run the
+            # same validation as the constructor on the mapping's items / the object's attributes
+            from .models import construct_model
+            src = args[0]
+            if isinstance(src, Opt):
+                src = src.val
+            if isinstance(src, Dct) and all(isinstance(k_, Str) and k_.concrete for k_, _ in src.pairs):
+                kwargs = {k_.c: v_ for k_, v_ in src.pairs}
+            elif isinstance(src, Obj):
+                names = {f["name"] for f in ex.repo.class_fields(cls)}
+                kwargs = {k_: v_ for k_, v_ in src.fields.items() if k_ in names}
+            else:
+                raise Unsupported(f"model_validate of {type(src).__name__}")
+            ex.trace["assumed"].add("pydantic: model_validate(dict | attributes) == constructor(**fields)")
+            return construct_model(ex, p, cls, kwargs, node)
         found = ex.repo.find_method(cls, path[0]) if len(path) == 1 else None
         if found is not None:
             fm, fnode, fcls, fq = found
@@ -615,6 +631,20 @@ def b_hasattr(ex, p, args, kw, node):
     raise Unsupported("hasattr")
 
 
+def b_getattr(ex, p, args, kw, node):
+    v, name = args[0], args[1]
+    if isinstance(name, Str) and name.concrete:
+        return ex.getattr(v, name.c, p, node)
+    raise Unsupported("getattr with symbolic name")
+
+
+def b_type(ex, p, args, kw, node):
+    v = args[0]
+    if isinstance(v, Obj):
+        return [(p, Fn("class", v.cls))]
+    raise Unsupported("type() of non-object")
+
+
 def b_set(ex, p, args, kw, node):
     if not args:
         return [(p, SetV([]))]
@@ -669,6 +699,6 @@ BUILTINS = {
     "len": b_len, "min": _minmax("min"), "max": _minmax("max"), "abs": b_abs, "int": b_int, "float": b_float,
     "bool": b_bool, "isinstance": b_isinstance, "any": _quant("any"), "all": _quant("all"), "list": b_list,
     "tuple": b_tuple, "dict": b_dict, "range": b_range, "enumerate": b_enumerate, "zip": b_zip, "sum": b_sum,
-    "next": b_next, "hasattr": b_hasattr, "set": b_set, "iter": b_list,
+    "next": b_next, "hasattr": b_hasattr, "getattr": b_getattr, "type": b_type, "set": b_set, "iter": b_list,
     "implies": b_implies, "forall": _cquant("forall"), "exists": _cquant("exists"), "distinct": b_distinct,
 }
